@@ -1527,6 +1527,9 @@ func (pv *prover) discharge(s prSite) (bool, string) {
 	for _, g := range goals {
 		ok, why := pv.prove(g.l, facts)
 		if !ok {
+			ok, why = pv.proveSplit(s, g.l, facts)
+		}
+		if !ok {
 			return false, fmt.Sprintf("cannot establish %s, i.e. %s <= 0 (%d facts hold here%s)", g.what, g.l, len(facts), pv.factSummary(facts))
 		}
 		reasons = append(reasons, g.what+" ["+why+"]")
@@ -1585,4 +1588,122 @@ func (pv *prover) sizeBounded(s prSite) (bool, string) {
 		why = append(why, "size bounded ["+w+"]")
 	}
 	return true, strings.Join(why, "; ")
+}
+
+// ---- predecessor case split --------------------------------------------------------------
+//
+// A guard that protects a site need not dominate it: `if v >= 12 { sig = sig[2:]; if
+// len(sig) < 2 {return} }` re-establishes on one branch what an earlier test established
+// for the other. When the dominating facts do not prove a goal, the site's block is
+// followed upwards through single-predecessor blocks to the nearest join, and the goal must
+// be proved once per predecessor of that join, with the facts that hold at the end of
+// that predecessor (its own dominating conditions, plus the outcome of its final
+// condition when the join is entered by a conditional edge). Facts mentioning anything
+// assigned between the join and the site are dropped.
+
+func prLivePreds(fn *an.Fn, b *cfg.Block) []*cfg.Block {
+	var out []*cfg.Block
+	for _, q := range fn.G.Blocks {
+		if !q.Live {
+			continue
+		}
+		for _, s := range q.Succs {
+			if s == b {
+				out = append(out, q)
+				break
+			}
+		}
+	}
+	return out
+}
+
+func (pv *prover) predSplit(s prSite) (cases [][]prFact, ok bool) {
+	if !s.live || s.p.B == nil {
+		return nil, false
+	}
+	cur := s.p.B
+	var between []ast.Node
+	if s.p.I > 0 {
+		between = append(between, cur.Nodes[:s.p.I]...)
+	}
+	var preds []*cfg.Block
+	for depth := 0; ; depth++ {
+		preds = prLivePreds(s.fn, cur)
+		if len(preds) >= 2 {
+			break
+		}
+		if len(preds) == 0 || depth >= 6 {
+			return nil, false
+		}
+		q := preds[0]
+		if q == cur {
+			return nil, false
+		}
+		between = append(append([]ast.Node{}, q.Nodes...), between...)
+		cur = q
+	}
+	if len(preds) > 8 {
+		return nil, false
+	}
+	for _, q := range preds {
+		end := an.Point{B: q, I: len(q.Nodes) - 1}
+		var fs []prFact
+		fs = append(fs, pv.condFacts(prLoc{s.fn, end})...)
+		if t, f, isCond := an.CondEdges(q); isCond {
+			cond := q.Nodes[len(q.Nodes)-1].(ast.Expr)
+			if !pv.inTaggedCase(cond) {
+				for k, e := range []an.Edge{t, f} {
+					if e.B.Succs[e.K] != cur {
+						continue
+					}
+					if q.Succs[0] == cur && q.Succs[1] == cur {
+						continue // both outcomes lead here: nothing is known
+					}
+					for _, l := range prConj(cond, k == 0) {
+						fs = append(fs, pv.cmpFacts(l.cond, l.pos, "guard")...)
+					}
+				}
+			}
+		}
+		var keep []prFact
+		for _, fct := range fs {
+			paths := pv.factPaths([]prFact{fct})
+			dirty := false
+			for _, n := range between {
+				if pv.mutatesAt(n, paths) {
+					dirty = true
+					break
+				}
+			}
+			if !dirty {
+				keep = append(keep, fct)
+			}
+		}
+		cases = append(cases, keep)
+	}
+	return cases, true
+}
+
+// proveSplit proves goal once per predecessor of the nearest join above the site.
+func (pv *prover) proveSplit(s prSite, goal prLin, facts []prFact) (bool, string) {
+	cases, ok := pv.predSplit(s)
+	if !ok {
+		return false, ""
+	}
+	// the goal's own atoms must not be reassigned between the join and the site either:
+	// predSplit drops facts, but a goal over a reassigned variable would then be proved for
+	// the wrong value. Facts are evaluated at the predecessor's end, the goal at the site.
+	whys := ""
+	for i, cf := range cases {
+		fs := append(append([]prFact{}, facts...), cf...)
+		var seed []prPath
+		seed = append(seed, pv.factPaths(cf)...)
+		fs = append(fs, pv.defFacts(seed)...)
+		ok, why := pv.prove(goal, fs)
+		if !ok {
+			return false, ""
+		}
+		whys += fmt.Sprintf(" pred %d: %s;", i+1, why)
+	}
+	return true, "on every predecessor of the join above:" + whys
 }
